@@ -21,6 +21,7 @@ from __future__ import annotations
 import copy
 import hashlib
 import json
+import re
 from typing import Any, Dict, List, Optional, Tuple
 
 from harness.lib import scen
@@ -588,6 +589,34 @@ def _settings_schema(agent_type: str):
         return cls.ConfigSchema.model_fields["agent_settings"].annotation
     except Exception:
         return None
+
+
+_UUID = re.compile(r"[0-9a-f]{8}-[0-9a-f]{4}-[0-9a-f]{4}-[0-9a-f]{4}-[0-9a-f]{12}")
+_MAC = re.compile(r"\b[0-9a-f]{2}(:[0-9a-f]{2}){5}\b")
+
+
+def state_digest(game, text_out: Optional[List[str]] = None) -> str:
+    """`simulation.describe_state()` in canonical form: uuids and MAC addresses (fresh per build) masked, entries that are keyed by a
+    uuid turned into a sorted list, numbers as written. Two builds of the same file give the same text."""
+    import hashlib
+
+    def canon(o):
+        if isinstance(o, dict):
+            if o and all(isinstance(k, str) and (_UUID.fullmatch(k) or _MAC.fullmatch(k)) for k in o):
+                return sorted((canon(v) for v in o.values()), key=lambda x: json.dumps(x, sort_keys=True, default=str))
+            return {str(k): canon(v) for k, v in o.items()}
+        if isinstance(o, (list, tuple, set, frozenset)):
+            xs = [canon(v) for v in o]
+            return sorted(xs, key=lambda x: json.dumps(x, sort_keys=True, default=str)) if isinstance(o, (set, frozenset)) else xs
+        if isinstance(o, str):
+            return _MAC.sub("MAC", _UUID.sub("U", o))
+        if isinstance(o, float):
+            return repr(o)
+        return o if isinstance(o, (int, bool)) or o is None else _MAC.sub("MAC", _UUID.sub("U", str(o)))
+    text = json.dumps(canon(game.simulation.describe_state()), sort_keys=True, default=str)
+    if text_out is not None:
+        text_out.append(text)
+    return hashlib.sha256(text.encode()).hexdigest()[:16] + ":" + str(len(text))
 
 
 def split_inventory(line: str) -> List[str]:
